@@ -80,7 +80,15 @@ class Sched:
                 except BaseException:  # noqa
                     pass
         leftovers = [t for t in asyncio.all_tasks() if t is not asyncio.current_task() and not t.done()]
-        return task.result(), leftovers
+        names = [repr(t.get_coro()) for t in leftovers]
+        for t in leftovers:  # reported to the caller by name; never allowed to outlive this schedule
+            t.cancel()
+        if leftovers:
+            await asyncio.gather(*leftovers, return_exceptions=True)
+        for _, fut in self.pending:
+            if not fut.done():
+                fut.cancel()
+        return task.result(), names
 
     def unfinished(self):
         started = [l for k, l in self.log if k == "start"]
